@@ -5,8 +5,8 @@
    differential run.  The two "iff" theorems say for exactly which shapes the property holds, so
    they stay valid whether or not the code is repaired; the [_refuted] theorems instantiate them
    at the shape the tree had when this was written. *)
-From Sekai Require Import Base.Prelude Base.Dec Model.Filters Model.Fees Model.C09Check Gen.AnteChain
-  Proofs.Filters Proofs.Fees.
+From Sekai Require Import Base.Prelude Base.Dec Model.Filters Model.Fees Model.C09Check Gen.AnteChain Gen.TransferSites
+  Proofs.Filters Proofs.Fees Proofs.C14Transfers.
 
 (* the native token is never frozen *)
 Theorem C14_native_never_frozen : forall t d en_black en_white, is_frozen t d d en_black en_white = false.
@@ -29,7 +29,7 @@ Print Assumptions C14_fee_coins_not_frozen.
 (* FULL STATEMENT "no admitted transaction moves a frozen token to another account, whatever the
    message type and position" holds exactly when the filter inspects all transfer-capable types *)
 Theorem C14_frozen_never_moves_iff : forall sh,
-  (forall f ms, bw_loop sh f ms = Ok tt -> forall m, In m ms -> forall d, In d (moved_by m) -> frozen f d = false)
+  (forall f ms, bw_loop sh f ms = Ok tt -> forall m, In m ms -> forall d, In d (moved_by (f_native f) m) -> frozen f d = false)
   <-> bw_complete (sh_bw_types sh) = true.
 Proof. exact frozen_never_moves_iff. Qed.
 Print Assumptions C14_frozen_never_moves_iff.
@@ -38,7 +38,7 @@ Print Assumptions C14_frozen_never_moves_iff.
    custody MsgSend carry a frozen token through *)
 Theorem C14_frozen_never_moves_refuted :
   exists f ms, bw_loop shape_at_writing f ms = Ok tt /\
-               exists m d, In m ms /\ In d (moved_by m) /\ frozen f d = true.
+               exists m d, In m ms /\ In d (moved_by (f_native f) m) /\ frozen f d = true.
 Proof. exact (frozen_never_moves_incomplete shape_at_writing eq_refl). Qed.
 Print Assumptions C14_frozen_never_moves_refuted.
 
@@ -60,7 +60,18 @@ Theorem C14_weak_network_only_allowed_iff : forall sh,
 Proof. exact weak_network_only_allowed_iff. Qed.
 Print Assumptions C14_weak_network_only_allowed_iff.
 
-(* REFUTED on the tree as written: only the first message is inspected *)
+(* HOLDS AT FULL STRENGTH for the loop shape regenerated from the current tree (after /repo commit
+   7b33f10 both arms `continue`): with fewer validators than the minimum, every message of an
+   admitted transaction is on the allowed list or a native transfer within the limit.  If the
+   shape regresses, [eq_refl] no longer type-checks and this obligation breaks. *)
+Theorem C14_weak_network_only_allowed : forall f ms,
+  0 <= f_minvals f < two63 -> weak_network f = true -> poor_check gen_shape f ms = Ok tt ->
+  Forall (fun m => allowed_on_weak f m = true) ms.
+Proof. exact (fun f ms => weak_network_only_allowed_ok gen_shape f ms eq_refl). Qed.
+Print Assumptions C14_weak_network_only_allowed.
+
+(* REFUTED for the `return next(...)` shape the tree had before that commit: only the first
+   message is inspected *)
 Theorem C14_weak_network_only_allowed_refuted :
   exists f ms, 0 <= f_minvals f < two63 /\ weak_network f = true /\ poor_check shape_at_writing f ms = Ok tt /\
                ~ Forall (fun m => allowed_on_weak f m = true) ms.
@@ -81,10 +92,36 @@ Theorem C14_weak_network_cast_refuted : forall sh,
 Proof. exact weak_network_cast_refuted. Qed.
 Print Assumptions C14_weak_network_cast_refuted.
 
+(* The transfer-capable handlers: the table regenerated from x/*/keeper/*.go (every bank SendCoins
+   call: module, handler, message type, origin of the coins) is the reviewed one -- a NEW
+   account-to-account transfer path, or one whose coins change origin, breaks this obligation ... *)
+Theorem C14_transfer_table_reviewed : transfer_gen_errors = [] /\ transfer_sites = reviewed_sites.
+Proof. exact transfer_table_reviewed. Qed.
+Print Assumptions C14_transfer_table_reviewed.
+
+(* ... every path the current filter leaves open is one of the reviewed, known ones ... *)
+Theorem C14_unfiltered_paths_known :
+  forallb (fun p => pair_in p reviewed_unfiltered) (unfiltered gen_shape transfer_sites) = true.
+Proof. exact unfiltered_paths_known. Qed.
+Print Assumptions C14_unfiltered_paths_known.
+
+(* ... the handlers the model represents (custody Send, Ethereum native send) are in the table, the
+   Ethereum one as native-only ... *)
+Theorem C14_modelled_paths_in_table :
+  existsb (fun s => String.eqb (site_type s) "custody_send" && String.eqb (site_class s) "caller")%bool transfer_sites = true /\
+  existsb (fun s => String.eqb (site_type s) "ethereum_tx" && String.eqb (site_class s) "native")%bool transfer_sites = true.
+Proof. exact modelled_paths_in_table. Qed.
+Print Assumptions C14_modelled_paths_in_table.
+
+(* ... and "every such path is filtered" is REFUTED for the reviewed table and the filter as written *)
+Theorem C14_all_paths_filtered_refuted : unfiltered shape_at_writing reviewed_sites <> [].
+Proof. exact all_paths_filtered_refuted. Qed.
+Print Assumptions C14_all_paths_filtered_refuted.
+
 (* the tree is inside the translator's fragment; both filters sit in the chain after the fee
    deduction and before signature verification, as modelled *)
 Theorem C14_translation_side_conditions :
-  gen_errors = [] /\ ante_chain = expected_chain /\ gen_post_handler_installed = false.
+  gen_errors = [] /\ ante_chain = expected_chain.
 Proof. exact gen_chain_ok. Qed.
 Print Assumptions C14_translation_side_conditions.
 
@@ -97,5 +134,6 @@ Example C14_nonvacuous :
   /\ poor_check shape_repaired ex_filt [MOther "set_network_properties" ["a"%string] false ""; MSend "a" "b" [("ukex"%string, 1000)]] = Ok tt
   /\ poor_check shape_repaired ex_filt [MOther "set_network_properties" ["a"%string] false ""; MSend "a" "b" [("ukex"%string, 1001)]] <> Ok tt
   /\ bw_loop shape_repaired ex_filt [MMulti "a" [("xeth"%string, 5)] [("b"%string, [("xeth"%string, 5)])]] <> Ok tt
+  /\ bw_loop shape_repaired ex_filt [MEth "e" "b" 7] = Ok tt /\ moved_by "ukex" (MEth "e" "b" 7) = ["ukex"%string]
   /\ bw_complete (sh_bw_types shape_repaired) = true /\ poor_shape_ok shape_repaired = true.
 Proof. vm_compute. repeat split; discriminate. Qed.
